@@ -78,6 +78,16 @@ Theorem C19_child_status_is_last_request : forall st ca p pc ch r st' res x,
   child_last st' pc ch = Some x.
 Proof. exact child_status_is_last_request. Qed.
 
+Theorem C19_child_status_is_last_request_in_histories : forall os1 os2 st1 st2 st3 ca p pc ch r x,
+  run init os1 = Some st1 ->
+  step st1 (OParentSync ca p pc ch r) = Some st2 ->
+  run st2 os2 = Some st3 ->
+  forallb (fun o => negb (touches_child pc ch o)) os2 = true ->
+  good pc -> good ch ->
+  last_recorded (sent_messages r) = Some x ->
+  child_last st3 pc ch = Some x.
+Proof. exact child_status_is_last_request_in_histories. Qed.
+
 (** Restart: the cache rebuilt from the files shows what the cache showed, for handles without '/' and '\';
     the invariant that makes this true holds initially and is kept by every operation, whatever its handles. *)
 Theorem C19_restart_preserves : forall st, Sync st -> forall ca, good ca ->
@@ -133,6 +143,7 @@ Print Assumptions C19_published_equals_server_after_success.
 Print Assumptions C19_published_unchanged_by_failure.
 Print Assumptions C19_shadow_not_self_healing_refuted.
 Print Assumptions C19_child_status_is_last_request.
+Print Assumptions C19_child_status_is_last_request_in_histories.
 Print Assumptions C19_restart_preserves.
 Print Assumptions C19_sync_init.
 Print Assumptions C19_sync_step.
